@@ -202,5 +202,81 @@ func orderFacts(repo string) string {
 		p("  (%s, %s, %s)%s\n", lq(name), lq(rng), skOf(fd, opts), sep)
 	}
 	p("]\n\n")
+
+	// (added) the early-reference loop and the Configure entry points that are driven several times
+	opts2 := skOpts{name: func(c *ast.CallExpr) string {
+		if n := orderCallName(c); n != "" {
+			return n
+		}
+		n := exprName(c.Fun)
+		for _, s := range []string{"GetEarlyBeanReference", "loadConfigure"} {
+			if n == s || strings.HasSuffix(n, "."+s) {
+				return s
+			}
+		}
+		return ""
+	}}
+	gebr := findFunc(fac, "PostProcessorRegistrationDelegate", "GetEarlyBeanReference")
+	p("/-- PostProcessorRegistrationDelegate.GetEarlyBeanReference: (what its loop ranges over, skeleton) -/\ndef earlyRefLoopFact : String × List Sk := (%s, %s)\n\n",
+		lq(deepFirstRange(gebr)), skOf(gebr, opts2))
+	cfg := parseDir(filepath.Join(repo, "configure"))
+	p("/-- configure.Initialize / AddLoaders / SetLoaders: skeletons, and the assignments to the loader slice in each function of the type -/\n")
+	p("def confInitializeSkel : List Sk := %s\n\n", skOf(findFunc(cfg, "configure", "Initialize"), opts2))
+	p("def confAddLoadersSkel : List Sk := %s\n\n", skOf(findFunc(cfg, "configure", "AddLoaders"), opts2))
+	p("def confLoaderWrites : List (String × String) := [%s]\n\n", strings.Join(loaderWrites(cfg), ", "))
 	return b.String()
+}
+
+// deepFirstRange: what the first `range` loop anywhere in the function ranges over
+func deepFirstRange(fd *ast.FuncDecl) string {
+	if fd == nil || fd.Body == nil {
+		return "<function not found>"
+	}
+	res := "<no loop>"
+	found := false
+	ast.Inspect(fd.Body, func(n ast.Node) bool {
+		if found {
+			return false
+		}
+		if rs, ok := n.(*ast.RangeStmt); ok {
+			res = exprName(rs.X)
+			found = true
+			return false
+		}
+		return true
+	})
+	return res
+}
+
+// loaderWrites: every assignment whose left side is `<recv>.loaders`, as (function, right side rendered by its root call / ident)
+func loaderWrites(files []*ast.File) []string {
+	var out []string
+	for _, f := range files {
+		for _, d := range f.Decls {
+			fd, ok := d.(*ast.FuncDecl)
+			if !ok || fd.Body == nil {
+				continue
+			}
+			ast.Inspect(fd.Body, func(n ast.Node) bool {
+				as, ok := n.(*ast.AssignStmt)
+				if !ok || len(as.Lhs) != 1 || len(as.Rhs) != 1 {
+					return true
+				}
+				if sel, ok := as.Lhs[0].(*ast.SelectorExpr); !ok || sel.Sel.Name != "loaders" {
+					return true
+				}
+				rhs := exprName(as.Rhs[0])
+				if ce, ok := as.Rhs[0].(*ast.CallExpr); ok {
+					rhs = exprName(ce.Fun)
+					for _, a := range ce.Args {
+						rhs += " " + exprName(a)
+					}
+				}
+				out = append(out, fmt.Sprintf("(%s, %s)", lq(fd.Name.Name), lq(rhs)))
+				return true
+			})
+		}
+	}
+	sort.Strings(out)
+	return out
 }
